@@ -1532,6 +1532,16 @@ def seal_file_path(existing_history, file_path, hash_formats: [str], session) ->
         # TODO: Instead of selecting the first format, perhaps choose the most efficient or robust format
         if not hash_formats_to_generate or len(hash_formats_to_generate) == 0:
             hash_formats_to_generate.append(existing_hash_formats[0])
+        # a hash in a new format is only accepted if the format of the original hash verifies in the same run
+        # (see MHLHistory._validate_new_hash_list), so that format needs to be generated as well
+        original_hash_entry = existing_child_history.find_original_hash_entry_for_path(existing_history_relative_path)
+        adds_new_format = any(hash_format not in existing_hash_formats for hash_format in hash_formats)
+        if (
+            adds_new_format
+            and original_hash_entry is not None
+            and original_hash_entry.hash_format not in hash_formats_to_generate
+        ):
+            hash_formats_to_generate.append(original_hash_entry.hash_format)
 
     for hash_format in hash_formats:
         if hash_format not in hash_formats_to_generate:
